@@ -5,6 +5,11 @@ ROOT = os.path.dirname(os.path.dirname(os.path.abspath(__file__)))
 ALL = ["C%02d" % i for i in range(1, 21)]
 
 CHECKS = {
+ "C06": dict(
+   technique="TLA+ Mutability spec (Immutable/Mutates/MustReject with applicability of paths and forms); TLC enumerates the full product kind x path x form x context; every case and its mutable twin (control) compiled by the real front end",
+   category="model_checking",
+   text="Exhaustive over the stated finite product (11 immutable binding kinds incl. module-level const, for-index, catch variable, &T parameter/receiver/local x 8 access paths x 7 mutation forms x 6 syntactic contexts = 1428 well-formed cases): control accepted and case not accepted.",
+   note="The control (same program with a mutable root) isolates the mutability rule; cases whose control is rejected are void and counted (92: &' of a whole reference is not expressible)."),
  "C05": dict(
    technique="TLA+ ReturnPaths spec: body grammar, definitional interpreter and structural fall-through rule, proved equivalent by TLC on every enumerated body; bodies rendered as function/method/function literal and compiled by the real front end; accepted bodies executed and compared with the interpreter",
    category="model_checking",
